@@ -53,6 +53,14 @@ FRAGMENT_HISTORY = [
                                "vec result": 75, "func parameter": 55, "same let re-declared in two match clauses": 44,
                                "function name as value": 40, "node:go": 39, "closure env with func field": 25,
                                "call:string_len": 19, "float literal": 10}},
+    {"stage": "+ function values (top-level functions as operands, calls through locals / parameters of function type, "
+              "closure environments with function fields); MINUS Go constant expressions whose exact value is not the "
+              "run-time value (noConstExpr, finding C10)",
+     "inside": 5219, "functions": 6160,
+     "first_reasons_outside": {"callee outside": 242, "node:to-dyn": 177, "call:vec_new": 128, "vec parameter": 78,
+                               "vec result": 78, "same let re-declared in two match clauses": 45, "node:go": 40,
+                               "call:user-fn-args": 26, "call:string_len": 20, "if:type": 11, "float literal": 10,
+                               "go-const-expr (operation on literals, not exact)": 9}},
 ]
 
 
@@ -161,6 +169,12 @@ def evaluate(ctx):
             fn[key] = fn.get(key, 0) + 1
             if key in ("DIFF", "UNSUPPORTED") and fresh == "EQ":
                 diffs.append((cid, f"function {name}: {v}"))
+        whys = dict(_kv(r[3]))
+        if "main" in whys:
+            frag["programs_with_main"] = frag.get("programs_with_main", 0) + 1
+            if whys["main"] in ("in", "in(typed)"):
+                frag["programs_with_main_inside(compile_preserves_run applies)"] = \
+                    frag.get("programs_with_main_inside(compile_preserves_run applies)", 0) + 1
         for name, why in _kv(r[3]):
             frag["functions"] += 1
             if why in ("in", "in(typed)"):
